@@ -185,7 +185,10 @@ def sweep(segs, rng, max_positions=None, nmix=3, wide_all=False):
         return []
     pos = list(dets)
     if max_positions is not None and len(pos) > max_positions:
-        keep = {0, len(pos) - 1} | set(i for i, d in enumerate(pos) if d[1] in ("bitmap", "alt"))
+        fr = [i for i, d in enumerate(pos) if d[1] in ("bitmap", "alt")]
+        if len(fr) > max_positions // 2:
+            fr = fr[:max_positions // 4] + fr[-(max_positions // 4):]
+        keep = {0, len(pos) - 1} | set(fr)
         while len(keep) < max_positions:
             keep.add(rng.below(len(pos)))
         pos = [pos[i] for i in sorted(keep)]
